@@ -176,6 +176,37 @@ ValuesRows(e) == [i \in 1..Len(e.rows) |->
                     LET B == {j \in 1..Len(e.vars) : e.rows[i][j].k # "undef"}
                     IN [v \in {e.vars[j] : j \in B} |-> e.rows[i][CHOOSE j \in B : e.vars[j] = v]]]
 
+(* ---- where the named deviation KF_C04_pushdown applies: rdflib's "lazy" joins (algebra.py: analyse) ------------------------- *)
+(* The group translation makes one Join per joined element after the first (adjacent triple blocks are one element; OPTIONAL, MINUS and
+   BIND make LeftJoin / Minus / Extend instead).  A Join is evaluated lazily - right operand once per left solution, with that solution's
+   bindings visible inside it - exactly when neither operand contains a Join, a DISTINCT or a LIMIT / OFFSET anywhere (the graph patterns
+   of EXISTS filters included).  Everywhere else the operands are evaluated on their own, as the algebra says. *)
+RECURSIVE LazyAble(_)
+RECURSIVE LazyAbleElt(_)
+RECURSIVE ExprLazy(_)
+JoinType(e) == e.t \in {"bgp", "group", "union", "graph", "values", "subselect"}
+MakesJoin(elts, i) == i > 1 /\ JoinType(elts[i]) /\ ~(elts[i].t = "bgp" /\ elts[i - 1].t = "bgp")
+ExprLazy(x) ==
+  IF x.e \in {"exists", "notexists"} THEN LazyAble(x.g)
+  ELSE /\ ("a" \in DOMAIN x => ExprLazy(x.a))
+       /\ ("b" \in DOMAIN x => ExprLazy(x.b))
+       /\ ("c" \in DOMAIN x => ExprLazy(x.c))
+       /\ ("args" \in DOMAIN x => \A i \in 1..Len(x.args) : ExprLazy(x.args[i]))
+LazyAbleElt(e) ==
+  CASE e.t \in {"bgp", "values"} -> TRUE
+    [] e.t \in {"group", "optional", "minus", "graph"} -> LazyAble(e.g)
+    [] e.t = "union"     -> \A i \in 1..Len(e.gs) : LazyAble(e.gs[i])
+    [] e.t \in {"bind", "filter"} -> ExprLazy(e.e)
+    [] e.t = "subselect" -> /\ ~("distinct" \in DOMAIN e.q /\ e.q.distinct) /\ "limit" \notin DOMAIN e.q /\ "offset" \notin DOMAIN e.q
+                            /\ "postvalues" \notin DOMAIN e.q /\ LazyAble(e.q.where)
+    [] OTHER -> TRUE
+LazyAble(g) == LET nf == SelectSeq(g.elts, LAMBDA x : x.t # "filter")
+               IN /\ \A i \in 1..Len(g.elts) : LazyAbleElt(g.elts[i])
+                  /\ \A i \in 1..Len(nf) : ~MakesJoin(nf, i)
+(* elts: the non-filter elements of a group; the join that brings in elts[i] is lazy *)
+LazyJoinAt(elts, i) == /\ MakesJoin(elts, i) /\ LazyAbleElt(elts[i])
+                       /\ \A j \in 1..(i - 1) : LazyAbleElt(elts[j]) /\ ~MakesJoin(elts, j)
+
 EvalElt(e, c, outer) ==     \* the multiset an element that is JOINED contributes
   CASE e.t = "bgp"    -> EvalBGP(e.tps, 1, c.active, <<EmptyMu>>)
     [] e.t = "group"  -> EvalGroup(e.g, c, outer)
@@ -202,11 +233,12 @@ EvalElts(elts, i, Om, c, outer) ==
            [] e.t = "bind"   -> Extend(Om, e.v, LAMBDA m : EvalExpr(e.e, m, c))
            \* named deviation KF_C04_pushdown (c.dev): a nested group joined after other elements is evaluated once per
            \* solution so far, with that solution's bindings visible inside it (rdflib's lazy join)
-           [] e.t = "group" /\ c.dev -> Flatten([j \in 1..Len(Om) |-> EvalGroup(e.g, c, Om[j])])
-           \* ... and so is a GRAPH block (a nested group under another active graph)
-           [] e.t = "graph" /\ c.dev -> Flatten([j \in 1..Len(Om) |-> EvalElt(e, c, Om[j])])
+           \* - where that join is one rdflib evaluates lazily (LazyJoinAt), and nowhere else
+           [] e.t = "group" /\ c.dev /\ LazyJoinAt(elts, i) -> Flatten([j \in 1..Len(Om) |-> EvalGroup(e.g, c, Om[j])])
+           \* ... and so is a GRAPH block (a nested group under another active graph) and a UNION (each branch sees the bindings)
+           [] e.t \in {"graph", "union"} /\ c.dev /\ LazyJoinAt(elts, i) -> Flatten([j \in 1..Len(Om) |-> EvalElt(e, c, Om[j])])
            \* ... and so is a sub-SELECT: its non-projected variables are then correlated with outer variables of the same name
-           [] e.t = "subselect" /\ c.dev -> Flatten([j \in 1..Len(Om) |-> Join(<<Om[j]>>, EvalQuery(e.q, [c EXCEPT !.init = Om[j]]).rows)])
+           [] e.t = "subselect" /\ c.dev /\ LazyJoinAt(elts, i) -> Flatten([j \in 1..Len(Om) |-> Join(<<Om[j]>>, EvalQuery(e.q, [c EXCEPT !.init = Om[j]]).rows)])
            [] OTHER          -> Join(Om, EvalElt(e, c, outer)),
          c, outer)
 
